@@ -165,9 +165,10 @@ func c01PayloadLen(k *c01wire.Key, c c01Cfg) int {
 }
 
 // c01CanonLens: framed lengths of the three handshake messages when both signatures have canonical length.
-//   msg 0 (-> e):          2 + 32
-//   msg 1 (<- e,ee,s,es):  2 + 32 + (32+16) + payload_R + 16
-//   msg 2 (-> s,se):       2 + (32+16) + payload_I + 16
+//
+//	msg 0 (-> e):          2 + 32
+//	msg 1 (<- e,ee,s,es):  2 + 32 + (32+16) + payload_R + 16
+//	msg 2 (-> s,se):       2 + (32+16) + payload_I + 16
 func c01CanonLens(ki, kr *c01wire.Key, ci, cr c01Cfg) [3]int {
 	return [3]int{2 + 32, 2 + 32 + 48 + c01PayloadLen(kr, cr) + 16, 2 + 48 + c01PayloadLen(ki, ci) + 16}
 }
